@@ -531,8 +531,10 @@ PROPS["C20"] = dict(run=tables.combine(lifecycle_model, gateway_run(["life"], ["
 TEXT["C20"] = _t("spec/Lifecycle.tla (Start / Stop critical sections with three concurrent Stop callers incl. the MQ closed handler) is model-checked exhaustively: one cause per run on the stop channel and it is the winner's, no socket open and nothing accepted after a run ended, a winning Stop terminates, and - with a messaging client whose Close hands over what it still holds in its receive buffer - nothing is ever handed to the cache's closed work channel (the swapped order is a negative check). On the real gateway: Stop and loss of the messaging connection are injected at arbitrary steps of TLC-generated schedules (with requests, loads and evictions outstanding, gates held, and optionally an event and / or a response delivered by the harness messaging client during Close, as the NATS adapter does); the observer requires every socket closed, the cause on the stop channel, completion within the fake-time bounds, refusal while stopped, a working restart, and no panic. Table lifehttp (real time, real loopback listeners, with and without the metrics endpoint): Stop followed at once by Start - the new run serves and is stopped by nothing of the old one - and a listener that cannot be opened - fail-stop with the cause, messaging client closed, a later Start works.",
                  "TLC exhaustive on Lifecycle.tla + TLC-generated stop / connection-loss schedules replayed on the real gateway, traces validated by the observer spec")
 
+# C10: the token carried by the requests of an HTTP call while the service changes it
+PROPS["C10"] = dict(run=tables.combine(PROPS["C10"]["run"], tables.tables_run(["httptoken"], "HTTP call token")))
 # C04: what an access response grants is a function table of its own (an error response is never a grant)
-PROPS["C04"] = dict(run=tables.combine(PROPS["C04"]["run"], tables.tables_run(["access"], "access verdict")))
+PROPS["C04"] = dict(run=tables.combine(PROPS["C04"]["run"], tables.tables_run(["access", "httpaccess"], "access verdict")))
 
 # C15: which value objects are rejected ("ambiguous or unknown value objects") is a function table of its own
 PROPS["C15"] = dict(run=tables.combine(PROPS["C15"]["run"], tables.tables_run(["values"], "value decoding")))
